@@ -76,7 +76,7 @@ pub fn main(rest: &[String]) -> i32 {
         if let Some(o) = job["overhead"].as_u64() {
             options.move_overhead = o as usize;
         }
-        let mut ps = match std::panic::catch_unwind(|| PersistentState::new(hash)) {
+        let mut ps = match crate::unwind_safe(|| PersistentState::new(hash)) {
             Ok(p) => p,
             Err(_) => {
                 writeln!(out, "{}", json!({"session": si, "tag": tag, "out": "panic", "msg": "PersistentState::new"})).unwrap();
